@@ -3,7 +3,7 @@ datastores (KVStore, CachedStore x eviction policies, Database, MultiTierCache, 
 SoftTTLCache, CacheWarmer).  All are generator APIs executed inside the harness caller's handler."""
 from __future__ import annotations
 
-from props.c07_core import Drv
+from props.c07_core import Drv, P, R
 
 from happysimulator.components.datastore import (CachedStore, CacheWarmer, ClockEviction, ConsistencyLevel,
                                                  ConsistentHashSharding, Database, FIFOEviction, HashSharding,
@@ -84,7 +84,7 @@ class LSMTreeLeveledDrv(_LSMDrv):
 class LSMTreeFifoDrv(_LSMDrv):
     covers = ("LSMTree", "FIFOCompaction", "SyncPeriodic")
     compaction = staticmethod(lambda: FIFOCompaction(max_total_sstables=2))
-    sync = staticmethod(lambda: SyncPeriodic(interval_s=0.5))
+    sync = staticmethod(lambda: SyncPeriodic(interval_s=P(0.5)))
 
 
 class MemtableDrv(_KVOps):
@@ -221,7 +221,7 @@ class CachedStoreTTLDrv(_CachedDrv):
     covers = ("CachedStore", "TTLEviction")
 
     def eviction(self):
-        return TTLEviction(ttl=0.75, clock_func=lambda: self.cs.now.to_seconds())
+        return TTLEviction(ttl=P(0.75), clock_func=lambda: self.cs.now.to_seconds())
 
 
 class CachedStoreFIFODrv(_CachedDrv):
@@ -317,7 +317,7 @@ class _ReplicatedDrv(_KVOps):
         self.reps = [KVStore(f"r{j}", read_latency=cfg.L * (j + 1) / 2, write_latency=cfg.L * (j + 1) / 2)
                      for j in range(3)]
         self.rs = ReplicatedStore("rs", replicas=self.reps, read_consistency=self.rc, write_consistency=self.wc,
-                                  read_timeout=1.0, write_timeout=2.0)
+                                  read_timeout=P(1.0), write_timeout=P(2.0))
         return [*self.reps, self.rs]
 
     def store(self):
@@ -384,7 +384,7 @@ class SoftTTLCacheDrv(Drv):
     def build(self, cfg):
         self.kv = KVStore("kv", read_latency=cfg.L, write_latency=cfg.L)
         self.kv.put_sync("k", 0)
-        self.c = SoftTTLCache("sttl", backing_store=self.kv, soft_ttl=0.5, hard_ttl=1.5, cache_capacity=1,
+        self.c = SoftTTLCache("sttl", backing_store=self.kv, soft_ttl=P(0.5), hard_ttl=P(1.5), cache_capacity=1,
                               cache_read_latency=cfg.L / 4)
         return [self.kv, self.c]
 
@@ -415,7 +415,7 @@ class CacheWarmerDrv(Drv):
             self.kv.put_sync(k, 1)
         self.cs = CachedStore("cache", backing_store=self.kv, cache_capacity=2, eviction_policy=LRUEviction(),
                               cache_read_latency=cfg.L / 4)
-        self.w = CacheWarmer("warmer", cache=self.cs, keys_to_warm=["a", "b", "missing"], warmup_rate=4.0,
+        self.w = CacheWarmer("warmer", cache=self.cs, keys_to_warm=["a", "b", "missing"], warmup_rate=R(4.0),
                              warmup_latency=cfg.L / 4)
         return [self.kv, self.cs, self.w]
 
